@@ -55,6 +55,18 @@ CLAIMS = {
  "C19": ("Theorem for every document: the visitor returns an error, or an array with the shape invariant whose dimensions and cells are stated by entries of the document (a repeated data key overwrites) - never a panic; overflowing, length-mismatching and one-zero-dimension documents are rejected. Correspondence: grammar-generated documents (missing/duplicate/unknown/escaped keys, boundary and ill-typed dimension values, wrong lengths and element types, non-objects) through all four transports, parsed by an independent JSON reader in the driver.",
          "serde_json parsing assumed; serde_json::Value de-duplicates keys (last wins), which the driver mirrors for the value transport",
          "Lean 4 proof (decision logic over all documents) + differential correspondence"),
+ "C05": ("Accounting theorems (ownership by position; List.Perm over an arbitrary element type): insert_row/insert_col add exactly the supplied items; remove_row/remove_col keep exactly the other cells and hand out / drop exactly the removed line; every cell permutation of a view conserves the whole buffer; overwrites keep the length (one cell leaves per cell that enters); parts of a permutation of a duplicate-free list are pairwise disjoint (never twice, never while reachable). PARTIAL: that Rust runs Drop exactly where the model says is established only on explored histories, by the harness's drop ledger (per-step dropped values, live count, double-drop counter) compared with the model's prediction on random and exhaustive histories over ledgered cells and zero-sized elements, and at the final drop of every case.",
+         "destructor execution, mem::forget and Vec's own drop glue are runtime behaviour outside the model; observed through the ledger",
+         "Lean 4 proof of conservation laws (multiset permutations) + ledger-instrumented differential correspondence"),
+ "C11": ("Theorems for the crate's own critical sections: insert_row / insert_col with ANY iterator script (items and panics in any order, any claimed length), any capacity, both modes: never ub; in every outcome the array satisfies the shape invariant; array cells + leaked + items still held by the caller are a permutation of old cells + supplied items. DrainCol's drop loop with a panicking element destructor ends in exactly the state of a normal drop (DropGuard). Sorts call caller code only before touching the array. PARTIAL: panics inside Vec's own operations (resize_with, vec!, fill, clone, drain, clear) and unwinding itself are assumed components; they are exercised for real by fault injection (k-th Clone/Drop/Default/comparator/key call panics, for every k, on all shapes <= 3x3) and judged by the property oracle (shape invariant, no double drop then or at the final drop, every reachable cell known, array still usable for read / push / pop / drop).",
+         "unwinding, catch_unwind and std's panic safety are runtime behaviour outside the model",
+         "Lean 4 proof (invariant at every point where caller code can unwind; conservation as a permutation) + fault-enumerating differential correspondence"),
+ "C12": ("Theorems: leaking the row drain at any stage leaves exactly the rows before the removed one (invariant holds; kept ++ yielded ++ leaked is a permutation of the old cells); leaking the column drain leaves the empty array (0,0) and what it leaked plus what it moved out is exactly the old buffer; iterators and views own nothing. PARTIAL: the state std's Vec::drain leaves behind when leaked is documented as unspecified; the model assumes today's behaviour (length = start of the drained range), which the correspondence run validates: every drain leaked after every (front,back) consumption split on all shapes <= 4x4 x {cell,u32,zst}, then read, mutated, dropped, ledger checked.",
+         "mem::forget and Vec::drain's leak behaviour are assumed components",
+         "Lean 4 proof (invariant + conservation after a leak) + differential correspondence with ledger"),
+ "C15": ("Theorems: translate_with_wrap((mc,mr)) with mc <= C, mr <= R equals the cell permutation new[(c,r)] = old[((c+mc)%C,(r+mr)%R)] of the receiver (so nothing lost or duplicated, frame untouched) - the cycle-leader loop with rotate-while-swapping is verified for all shapes via its one-cycle invariant and the orbit structure of k -> (b + k*a) mod R (gcd(R,a) orbits of length R/gcd), the fuelled loops never run out, no usize overflow (after the fix) and no ub; a larger mid panics; flip_rows / flip_cols are the stated mirrors; all three cell maps are bijections. Correspondence: all shapes <= 5x5 x all mids 0..dim+1 and 2^64-1, views and nested views, taller arrays up to 12 rows (every gcd pattern).",
+         "rotate_left, swap_with_slice, reverse modelled by specification",
+         "Lean 4 proof (nested loop invariants + number theory of the orbits) + differential correspondence"),
 }
 
 ORDER = ["C01", "C02", "C03", "C04", "C05", "C06", "C07", "C08", "C09", "C10", "C11", "C12", "C13", "C14", "C15", "C16", "C17", "C18", "C19", "C20"]
